@@ -10,7 +10,7 @@ package main
 //
 // Op (one line, one case):
 //   round id=<n> bs=<2|4|5> store=<mem|file> ca=<0..3> cb=<0..3> hb=<s> ri=<ms> split=<bytes|0> quiet=<ms> wait=<ms>
-//         start=<open|down> stop=<ia|ai> probe=<0|1> dyn=<0|1> val=<0|1> ev=<e1,e2,…>
+//         start=<open|down> stop=<ia|ai> probe=<0|1|2> dyn=<0|1> val=<0|1> ev=<e1,e2,…>
 //   dyn=1: session J is not configured, the acceptor creates it (DynamicSessions=Y) — as it does for every other
 //   well-formed Logon addressed to it; val=1: a ConnectionValidator refuses counterparties whose CompID starts with X
 //   events: sA<k> sB<k> (k submissions on the initiator / acceptor side)   p<k> (k on both sides concurrently)
@@ -25,7 +25,7 @@ package main
 // Observation (one line):
 //   (id lists: comma separated, runs of consecutive ids abbreviated a1..a3000, empty = -)
 //   obs try=<k> settled=<y|n> subA=… subB=… dlvA=… dlvB=… mid=<ok|bad> refused=<n> lonA= loutA= lonB= loutB=
-//       pairA=<ok|open|double> pairB= panics=<n> junk=<n> serveJ=<y|n|-> stopped=<y|n> pdcuts=<n> hung=<n>
+//       pairA=<ok|open|double> pairB= panics=<n> junk=<n> serveJ=<y|n|-> pipeJ=<y|n|-> stopped=<y|n> pdcuts=<n> hung=<n>
 //   crashed <panic|fatal|exit>      the worker process died (an unrecovered panic of an engine goroutine)
 //   stalled                         the worker did not answer in time
 // The scheduling is real, so the observation is NOT predicted by the model: lean/Qfx/Drv/SockMon.lean decides the round.
@@ -835,6 +835,33 @@ func (r *sockRound) probeJ() bool {
 	return false
 }
 
+// probePipelined: a peer that does not wait for the Logon answer — Logon and TestRequest written with ONE Write, so
+// that they can reach the acceptor in one read.  What the acceptor frames must not depend on that (C12): the
+// TestRequest is answered like one sent separately.
+func (r *sockRound) probePipelined() bool {
+	for attempt := 0; attempt < 3; attempt++ {
+		ok := func() bool {
+			c, err := net.DialTimeout("tcp", r.accAddr(), 2*time.Second)
+			if err != nil {
+				return false
+			}
+			defer c.Close()
+			c.SetWriteDeadline(time.Now().Add(3 * time.Second))
+			tr := "PIPE" + strconv.Itoa(attempt)
+			both := append(append([]byte(nil), r.jLogon(1)...),
+				wireBytes([]string{"8=" + r.bs, "35=1", "49=J" + r.id, "56=B" + r.id, "34=2", "52=@0", "112=" + tr})...)
+			c.Write(both)
+			return readUntil(c, 2*time.Second, "\x0135=0\x01", "\x01112="+tr+"\x01")
+		}()
+		if ok {
+			return true
+		}
+		r.note("pipelined probe attempt %d failed", attempt)
+		time.Sleep(300 * time.Millisecond)
+	}
+	return false
+}
+
 // ---------------------------------------------------------------- one round
 
 func parseSockOp(op string) (map[string]string, []string, bool) {
@@ -948,9 +975,12 @@ func (r *sockRound) run() string {
 	}
 	r.note("settled=%v", settled)
 
-	serveJ := "-"
-	if kv["probe"] == "1" {
+	serveJ, pipeJ := "-", "-"
+	if kv["probe"] == "1" || kv["probe"] == "2" {
 		serveJ = yn(r.probeJ())
+	}
+	if kv["probe"] == "2" {
+		pipeJ = yn(r.probePipelined())
 	}
 
 	stopped := timed(8*time.Second, func() {
@@ -975,10 +1005,10 @@ func (r *sockRound) run() string {
 		}
 		return "ok"
 	}
-	obs := fmt.Sprintf("obs try=%d settled=%s subA=%s subB=%s dlvA=%s dlvB=%s mid=%s refused=%d lonA=%d loutA=%d lonB=%d loutB=%d pairA=%s pairB=%s panics=%d junk=%d serveJ=%s stopped=%s pdcuts=%d hung=%d",
+	obs := fmt.Sprintf("obs try=%d settled=%s subA=%s subB=%s dlvA=%s dlvB=%s mid=%s refused=%d lonA=%d loutA=%d lonB=%d loutB=%d pairA=%s pairB=%s panics=%d junk=%d serveJ=%s pipeJ=%s stopped=%s pdcuts=%d hung=%d",
 		r.try, yn(settled), csvR(r.sub[0]), csvR(r.sub[1]), csvR(r.dlv[0]), csvR(r.dlv[1]), map[bool]string{false: "ok", true: "bad"}[r.midBad],
-		r.refused, r.lon[0], r.lout[0], r.lon[1], r.lout[1], pair(0), pair(1), atomic.LoadInt32(&r.panics), r.junkN, serveJ, yn(stopped), r.pxCuts(), r.hung[0]+r.hung[1])
-	complete := settled && sockEq(r.dlv[0], r.sub[1]) && sockEq(r.dlv[1], r.sub[0]) && !r.midBad && stopped && serveJ != "n" &&
+		r.refused, r.lon[0], r.lout[0], r.lon[1], r.lout[1], pair(0), pair(1), atomic.LoadInt32(&r.panics), r.junkN, serveJ, pipeJ, yn(stopped), r.pxCuts(), r.hung[0]+r.hung[1])
+	complete := settled && sockEq(r.dlv[0], r.sub[1]) && sockEq(r.dlv[1], r.sub[0]) && !r.midBad && stopped && serveJ != "n" && pipeJ != "n" &&
 		pair(0) == "ok" && pair(1) == "ok" && r.panics == 0 && r.hung[0]+r.hung[1] == 0
 	dbg := append([]string(nil), r.dbg...)
 	r.mu.Unlock()
@@ -1208,7 +1238,7 @@ func sockTimingOnly(obs string) bool {
 	if !strings.HasPrefix(obs, "obs ") {
 		return false
 	}
-	return strings.Contains(obs, " settled=n ") || strings.Contains(obs, " serveJ=n ") || strings.Contains(obs, " stopped=n") ||
+	return strings.Contains(obs, " settled=n ") || strings.Contains(obs, " serveJ=n ") || strings.Contains(obs, " pipeJ=n ") || strings.Contains(obs, " stopped=n") ||
 		!strings.HasSuffix(obs, " hung=0")
 }
 
@@ -1609,7 +1639,7 @@ func sockOpKinds(seed uint64, idx int, tier string, junk bool) (string, []string
 	}
 	probe, dyn, val := "0", 0, 0
 	if junk {
-		probe = "1"
+		probe = []string{"2", "1"}[(int(seed%2)+idx)%2] // every other hostile round also probes with Logon+TestRequest in one write
 		dyn = []int{0, 1, 0}[(int(seed%3)+idx)%3]
 		val = []int{0, 0, 1, 1}[(int(seed%4)+idx)%4]
 	}
